@@ -29,7 +29,9 @@ for d in demos:
     rel = os.path.relpath(d, src)
     os.makedirs(os.path.dirname(os.path.join(VW, rel)), exist_ok=True)
     shutil.copy(d, os.path.join(VW, rel))
-demo_cmd = "cargo test --offline --test seeded_demo -- --test-threads 1 2>&1 | tail -15"
+drf = os.environ.get("DEMO_RUSTFLAGS")
+demo_cmd = (f"RUSTFLAGS='{drf}' CARGO_TARGET_DIR=target/verif " if drf else "") + "cargo test --offline --test seeded_demo -- --test-threads 1 2>&1 | tail -15"
+if drf: meta["demo_note"] = f"demonstration run with RUSTFLAGS='{drf}' (it uses the guarded hooks)"
 rc0, out0 = sh(demo_cmd + "; exit ${PIPESTATUS[0]}", cwd=VW)
 ok_without = "test result: ok" in out0
 rc, out = sh(f"git -C {VW} apply {dst}/patch.diff")
